@@ -145,7 +145,9 @@ def repl_inputs_cases(draw, tier):
         # every input fixed to the same constant; the natural spelling is c.replace_inputs(c.inputs, [])
         assign = [whole] * n
     return {'nl': nl, 'route': draw(gen.routes(nl)), 'assign': assign, 'shuffle': draw(st.booleans()),
-            'bad': draw(st.integers(0, 9)) == 0, 'live': bool(whole) and draw(st.booleans())}
+            'bad': draw(st.integers(0, 9)) == 0, 'live': bool(whole) and draw(st.booleans()),
+            # the circuit was looked at before (positions asked, an input renamed) and is rewritten again afterwards
+            'looked': draw(st.booleans()), 'then_rename': draw(st.integers(0, 8))}
 
 
 def check_replace_inputs(case):
@@ -164,6 +166,11 @@ def check_replace_inputs(case):
         except core.cexc.GateNotInputError:
             return {'nt': False, 'cls': {'non_input_rejected'}}
         raise Violation('replace_inputs_non_input', 'replacing a non-input gate did not raise GateNotInputError')
+    if case.get('looked'):
+        build.observe(c)
+        if ins:
+            c.rename_gate(ins[-1], '__looked__')
+            c.rename_gate('__looked__', ins[-1])
     live = case.get('live') and (to_t == list(c.inputs) or to_f == list(c.inputs))
     if live:
         # the circuit's own inputs list as the argument
@@ -204,6 +211,20 @@ def check_replace_inputs(case):
         cls.add('live_inputs_list')
     if not remaining:
         cls.add('all_fixed')
+    if remaining and 'then_rename' in case:
+        # another local rewrite on what is left: rename one of the remaining inputs
+        old = remaining[case['then_rename'] % len(remaining)]
+        c.rename_gate(old, '__renamed_after__')
+        want = ['__renamed_after__' if x == old else x for x in remaining]
+        if list(c.inputs) != want:
+            raise Violation('rename_after_replace_inputs', f'inputs {list(c.inputs)} expected {want} (fixed true={to_t} false={to_f}, then renamed {old!r})')
+        pr = wellformed.problems(c)
+        if pr:
+            raise Violation('wellformed', 'after replace_inputs then rename_gate: ' + '; '.join(pr[:3]))
+        if [c.index_of_input(x) for x in want] != list(range(len(want))):
+            raise Violation('rename_after_replace_inputs', 'index_of_input disagrees with the inputs list')
+        if case.get('looked'):
+            cls.add('looked_fixed_renamed')
     return {'nt': bool(to_t or to_f) and gen.nontrivial_basic(nl), 'cls': cls}
 
 
@@ -308,14 +329,25 @@ def _reed_muller_netlist(n, cols, prefix):
 def subcircuit_cases(draw, tier):
     nl = draw(gen.netlists(min_inputs=1, max_inputs=5, min_gates=2, max_gates=18 if tier == 'thorough' else 14,
                            max_arity=3, styles=('plain', 'mixed'), min_outputs=1, max_outputs=4))
-    fault = draw(st.sampled_from(['none', 'none', 'none', 'unlisted_fanout', 'unlisted_fanout', 'non_input_mapped',
+    fault = draw(st.sampled_from(['none', 'none', 'none', 'unlisted_fanout', 'unlisted_fanout', 'unlisted_fanout', 'non_input_mapped',
                                   'missing_input', 'label_collision', 'overlap_keys', 'unread_unmapped_input', 'downstream_input']))
     grow = [draw(st.integers(0, 40)) for _ in range(draw(st.integers(0, 6)))]
-    if fault == 'unlisted_fanout' and draw(st.booleans()):
+    if fault == 'unlisted_fanout' and draw(st.integers(0, 3)) != 0:
         # a cut point that reads an interior gate of the cone (non-convex cut) next to an unlisted fan-out
         grow = [draw(st.integers(25, 40)) for _ in range(draw(st.integers(1, 3)))] + grow[:2]
+    roots = [draw(st.integers(0, 40)) for _ in range(draw(st.integers(1, 2)))]
+    if fault == 'unlisted_fanout' and draw(st.integers(0, 5)) == 0:
+        # by construction: a two-gate cone {nc_a, nc_r} whose cut point nc_b reads the interior gate nc_a, the only other
+        # reader of nc_a being the root - the unlisted fan-out then leads into a cut point only
+        used = {g[0] for g in nl['gates']}
+        a, b, r = [x if x not in used else x + '_' for x in ('nc_a', 'nc_b', 'nc_r')]
+        p, q = nl['inputs'][0], nl['inputs'][-1]
+        t = [draw(st.sampled_from(['AND', 'OR', 'XOR', 'NAND', 'GT', 'LEQ'])) for _ in range(3)]
+        nl = dict(nl, gates=nl['gates'] + [[a, t[0], [p, q]], [b, t[1], [a, p]], [r, t[2], [b, a]]], outputs=nl['outputs'] + [r])
+        roots = [sum(1 for g in nl['gates'] if g[1] != 'INPUT') - 1]
+        grow = [25]
     return {'nl': nl, 'route': draw(gen.routes(nl)), 'blocks': _blocks(draw, nl) if draw(st.booleans()) else [],
-            'roots': [draw(st.integers(0, 40)) for _ in range(draw(st.integers(1, 2)))],
+            'roots': roots,
             'grow': grow,
             'form': draw(st.sampled_from(['dnf', 'rm', 'chain'])),
             'label_mode': draw(st.sampled_from(['fresh', 'fresh', 'same_boundary'])),
